@@ -33,6 +33,8 @@ def cases(rng, tier):
                        {"op": "introspect", "auth": A1, "token": "at1", "hint": None}]
                 out.append({"cfg": dict(H.World().cfg), "ops": ops})
                 out.append({"cfg": dict(H.World(strict_hint=True).cfg), "ops": ops})
+                if who is not None:
+                    out.append({"cfg": dict(H.World(jwt_first=True).cfg), "ops": ops})      # RFC 9068 endpoints registered in front of the ordinary ones
     # a resource server that asks the introspection endpoint (rfc7662.IntrospectTokenValidator): use, then revoke / expire / refresh, then use again
     for end in ("revoke", "expire", "refresh", "nothing"):
         for via in ("introspection", None):
@@ -40,7 +42,7 @@ def cases(rng, tier):
             mid = {"revoke": {"op": "revoke", "auth": A1, "token": "at1", "hint": None}, "expire": {"op": "advance", "dt": 900000},
                    "refresh": {"op": "refresh", "auth": A1, "token": "rt2", "scope": None}, "nothing": {"op": "advance", "dt": 1}}[end]
             out.append({"cfg": dict(H.World().cfg), "ops": [{"op": "issue_password", "auth": A1, "user": 1, "scope": "a b"}, use, dict(use), mid, dict(use), dict(use, required=None)]})
-    out += jwt9068_cases()
+    out += jwt9068_cases() + django_rev_cases()
     for scope in (None, "a", "b a", "a z", "c"):
         ops = [{"op": "issue_password", "auth": A1, "user": 2, "scope": "a b"}, {"op": "refresh", "auth": A1, "token": "rt2", "scope": scope},
                {"op": "refresh", "auth": A1, "token": "rt2", "scope": None}, {"op": "access", "token": "at1", "required": ["a"]},
@@ -48,6 +50,56 @@ def cases(rng, tier):
                {"op": "introspect", "auth": A1, "token": "at1", "hint": "access_token"}]
         out.append({"cfg": dict(H.World().cfg), "ops": ops})
     return out
+
+
+def django_rev_cases():
+    """the Django integration's own RevocationEndpoint (django_oauth2/endpoints.py) over a token model: which row a revocation request marks"""
+    out = []
+    for ref in ("access", "refresh", "unknown", "other-clients-access"):
+        for hint in (None, "access_token", "refresh_token", "bogus", ""):
+            out.append({"op": "django_revocation", "ref": ref, "hint": hint})
+    return out
+
+
+def impl_django_revocation(c):
+    import memserver as ms
+    from memserver import Req
+    ms.install_clock(); ms.CLOCK.now = 1_000_000
+    store = ms.Store()
+    srv = ms.django_server(store)
+    from authlib.integrations.django_oauth2 import RevocationEndpoint
+    rows = []
+
+    class Row:
+        def __init__(self, at, rt, client_id):
+            self.access_token, self.refresh_token, self.client_id, self.revoked, self.saved = at, rt, client_id, False, 0
+        def check_client(self, client):
+            return self.client_id == client.get_client_id()
+        def save(self):
+            self.saved += 1
+
+    class DoesNotExist(Exception):
+        pass
+
+    class Objects:
+        @staticmethod
+        def get(**kw):
+            for r in rows:
+                if all(getattr(r, k) == v for k, v in kw.items()):
+                    return r
+            raise DoesNotExist()
+    TM = type("TokenModel", (), {"objects": Objects, "DoesNotExist": DoesNotExist})
+    srv.token_model = TM
+    rows += [Row("AT1", "RT1", "c1"), Row("AT2", "RT2", "c2")]
+    store.clients["c1"] = ms.Client("c1", "s1", ["https://c1/cb"], "a", ms.ALL_GRANT_TYPES, ms.ALL_RESPONSE_TYPES)
+    store.clients["c2"] = ms.Client("c2", "s2", ["https://c2/cb"], "a", ms.ALL_GRANT_TYPES, ms.ALL_RESPONSE_TYPES)
+    srv.register_endpoint(RevocationEndpoint)
+    tok = {"access": "AT1", "refresh": "RT1", "unknown": "nope", "other-clients-access": "AT2"}[c["ref"]]
+    form = {"token": tok}
+    if c["hint"] is not None:
+        form["token_type_hint"] = c["hint"]
+    r = ms.fw_call(srv, Req("POST", "https://as.example/revoke", form, ms.basic("c1", "s1")), "create_endpoint_response", "revocation")
+    return {"status": r.status, "error": r.body.get("error") if isinstance(r.body, dict) else None, "revoked": [x.access_token for x in rows if x.revoked]}
 
 
 def jwt9068_cases():
@@ -115,11 +167,13 @@ def impl_jwt9068(c):
 def impl(c):
     if c.get("op") == "jwt9068":
         return impl_jwt9068(c)
+    if c.get("op") == "django_revocation":
+        return impl_django_revocation(c)
     return H.replay_all(c)
 
 
 def model_line(c):
-    if c.get("op") == "jwt9068":
+    if c.get("op") in ("jwt9068", "django_revocation"):
         return None
     return {"cfg": c["cfg"], "ops": c["ops"]}
 
@@ -213,6 +267,16 @@ _hist_oracle = H.oracle_all(oracle_core)
 
 
 def oracle(c, out):
+    if c.get("op") == "django_revocation":
+        supported_hint = c["hint"] in (None, "", "access_token", "refresh_token")
+        want = ["AT1"] if c["ref"] in ("access", "refresh") and supported_hint else []
+        v = []
+        if out["revoked"] != want:
+            v.append((f"Django revocation endpoint: the owner revokes its {c['ref']} token string with token_type_hint={c['hint']!r}: rows marked revoked {out['revoked']}, expected {want} "
+                      f"(answer {out['status']} {out['error']})", {"kind": "revoke-not-effective" if want else "foreign-revoke-accepted", "fw": "django", "ref": c["ref"]}))
+        if supported_hint and c["ref"] != "other-clients-access" and out["status"] != 200:
+            v.append((f"Django revocation endpoint answered {out['status']} {out['error']} for a {c['ref']} token", {"kind": "unknown-revoke-not-200", "fw": "django"}))
+        return v
     if c.get("op") != "jwt9068":
         return _hist_oracle(c, out)
     v = []
@@ -235,11 +299,13 @@ def oracle(c, out):
 def classify(c, out):
     if c.get("op") == "jwt9068":
         return f"jwt9068/{c['who']}/" + ("live" if c["off"] <= 0 else "expired")
+    if c.get("op") == "django_revocation":
+        return f"django_revocation/{c['ref']}/{out.get('status')}"
     return "history/" + str(len(c["ops"]))
 
 
 def nontrivial(c, out):
-    if c.get("op") == "jwt9068":
+    if c.get("op") in ("jwt9068", "django_revocation"):
         return c
     return c["ops"]
 
